@@ -4,7 +4,7 @@ import json, os, shutil, sys
 P, N, caught = sys.argv[1:4]
 needs = " ".join(sys.argv[4:])
 src = f"/tmp/seed-{P}-out"
-dst = f"/verif/seeded/{P}-{N}"
+dst = f"/verif/seeded/{P}-{int(N) + int(os.environ.get('SEED_OFFSET', '0'))}"   # SEED_OFFSET=2 for a second seeding round
 os.makedirs(dst, exist_ok=True)
 shutil.copy(f"{src}/patch{N}.diff", f"{dst}/patch.diff")
 shutil.copy(f"{src}/demo{N}.py", f"{dst}/demo.py")
@@ -15,7 +15,7 @@ meta = {
     "needs_to_manifest": needs,
     "confirmed_by_me": f"demo.py exits 0 on the clean scratch worktree and non-zero with patch.diff applied (tools/seed_eval.sh {P} {N}); "
                        "existing tests import the installed guppylang 1.0.4 and are unaffected by source edits",
-    "ran": f"git -C /repo apply seeded/{P}-{N}/patch.diff; ./check {P} --tier quick; git -C /repo checkout -- .",
+    "ran": f"tools/seed_eval.sh {P} {N} (quick check against a scratch copy of /repo's sources carrying patch.diff; equivalent to: git -C /repo apply {dst}/patch.diff; ./check {P} --tier quick; git -C /repo checkout -- .)",
     "detected_by": caught if caught != "-" else None,
     "agent_notes": notes,
 }
